@@ -26,6 +26,9 @@ func main() {
 		fmt.Fprintln(os.Stderr, "unknown property", id)
 		os.Exit(2)
 	}
+	if os.Getenv("VERIF_SUPERVISED") == "" {
+		os.Exit(supervise(id))
+	}
 	seed := int64(1)
 	if s := os.Getenv("VERIF_SEED"); s != "" {
 		if v, err := strconv.ParseInt(s, 10, 64); err == nil {
